@@ -353,6 +353,52 @@ theorem decodeSpec_isSome (s : Bytes) : (decodeSpec s).isSome = pctWellFormed s 
     rw [decodeSpec_cons_ne hc]
     simp [ih]
 
+theorem decodeSpec_length_le (s : Bytes) : ∀ d, decodeSpec s = some d → d.length ≤ s.length := by
+  fun_induction pctWellFormed s with
+  | case1 => intro d h; simp [decodeSpec] at h; subst h; simp
+  | case2 h l r' ih =>
+    intro d hd
+    rw [decodeSpec_pct3] at hd
+    cases hh : hexVal h <;> cases hl : hexVal l <;> simp only [hh, hl] at hd <;> try cases hd
+    cases hr : decodeSpec r' with
+    | none => simp [hr] at hd
+    | some d' =>
+      simp only [hr, Option.map_some, Option.some.injEq] at hd
+      subst hd
+      have := ih d' hr
+      simp only [List.length_cons]; omega
+  | case3 r hr =>
+    intro d hd
+    match r, hr with
+    | [], _ => simp [decodeSpec_pct0] at hd
+    | [h], _ => simp [decodeSpec_pct1] at hd
+    | h :: l :: r', hr => exact absurd rfl (hr h l r')
+  | case4 c r hc ih =>
+    intro d hd
+    rw [decodeSpec_cons_ne hc] at hd
+    cases hr : decodeSpec r with
+    | none => simp [hr] at hd
+    | some d' =>
+      simp only [hr, Option.map_some, Option.some.injEq] at hd
+      subst hd
+      have := ih d' hr
+      simp only [List.length_cons]; omega
+
+/-- when `%` and the upper-case hex digits are all ignored, encoding again changes nothing -/
+theorem encodeSpec_idempotent (ig : CharSet) (hp : ig.mem 37 = true) (hh : ∀ n : Fin 16, ig.mem (hexUpper n.val) = true)
+    (s : Bytes) : encodeSpec ig (encodeSpec ig s) = encodeSpec ig s := by
+  induction s with
+  | nil => simp [encodeSpec]
+  | cons b s ih =>
+    rw [encodeSpec_cons, encodeSpec_append, ih]
+    by_cases hb : ig.mem b = true
+    · simp [hb, encodeSpec]
+    · have hbl := b.toNat_lt
+      have h1 := hh ⟨b.toNat / 16, by omega⟩
+      have h2 := hh ⟨b.toNat % 16, by omega⟩
+      simp only at h1 h2
+      simp [hb, encodeSpec, triplet, hp, h1, h2]
+
 theorem encodeSpec_length_le (ig : CharSet) (s : Bytes) : (encodeSpec ig s).length ≤ 3 * s.length := by
   induction s with
   | nil => simp [encodeSpec]
